@@ -323,6 +323,25 @@ func main() {
 		g.nt = true
 		g.emit("regression-start-time")
 	})
+	// regressions of the two ungated branches of the tube switch (fixed in hop-go): a delegate
+	// holding one command grant asks for port forwarding, then for a shell grant for its own key,
+	// reconnects, asks for a shell - all refused now
+	cases = append(cases, func() {
+		g := newGen(8, pool, true)
+		defer g.w.Close()
+		now := time.Now().Unix()
+		g.do(&ax.Op{Kind: "EN", B: true})
+		g.do(&ax.Op{Kind: "SF", User: "alice", FKind: ax.FMissing})
+		g.do(&ax.Op{Kind: "AG", Intent: &ax.Intent{Type: 2, Start: 0, Exp: 100, User: "alice", Key: 1, Cmd: "ls"}})
+		g.do(&ax.Op{Kind: "LG", User: "alice", Key: 1})
+		g.do(&ax.Op{Kind: "PF", Sid: 0, T: 50})
+		g.do(&ax.Op{Kind: "TB", Sid: 0, Ty: 6, Rel: true})
+		g.do(&ax.Op{Kind: "IT", Sid: 0, Intent: &ax.Intent{Type: 1, Start: now - 10, Exp: now + 100000, User: "alice", Key: 1}, CertOK: true, Wall: now})
+		g.do(&ax.Op{Kind: "EX", Sid: 0, Cmd: "ls", T: 50})
+		g.do(&ax.Op{Kind: "LG", User: "alice", Key: 1})
+		g.nt = true
+		g.emit("regression-ungated-tubes")
+	})
 	n := hv.Scale(1800, 30000)
 	for i := 0; i < n; i++ {
 		seed := r.U64()
